@@ -49,7 +49,7 @@ fn main() {
                 i += 1;
             }
             let seed: u64 = std::env::var("VERIF_SEED").ok().and_then(|s| s.parse().ok()).unwrap_or(0);
-            let budget = budget.unwrap_or(if tier.quick() { 40.0 } else { 900.0 });
+            let budget = budget.unwrap_or(if tier.quick() { 120.0 } else { 900.0 });
             let t0 = Instant::now();
             // stale replay files of earlier runs must not be mistaken for results of this one
             let _ = std::fs::remove_dir_all(std::path::Path::new(&check::verif_root()).join("replays").join(&prop));
